@@ -80,6 +80,54 @@ def monitor(r):
     return viol[:1]
 
 
+IDLER = r"""
+import sys
+import klepto.archives as ka
+a = ka.sqltable_archive(sys.argv[1], cached=False)
+# operations that change nothing: each must leave the handle without an open transaction
+a.pop('absent', None); a.get('absent'); ('absent' in a); len(a); a.popkeys(['nope', 'neither'], None); list(a.keys())
+try: a.pop('absent')
+except KeyError: pass
+try: del a['absent']
+except KeyError: pass
+print('ready', flush=True)
+sys.stdin.readline()
+"""
+
+
+def lingering_probe():
+    """a process that only made operations which change nothing (pop / popkeys of absent keys with a default, failed deletes, reads)
+    keeps its handle open and idles; a writer in ANOTHER process must get through at once (single-table clause of C14: writers are
+    serialised by the database, not locked out by a bystander)"""
+    tmp = scratch_dir('ksq')
+    try:
+        loc = 'sqlite:///%s' % os.path.join(tmp, 'arch.db')
+        env = dict(os.environ, PYTHONPATH=REPO + os.pathsep + HERE, PYTHONDONTWRITEBYTECODE='1')
+        subprocess.run([sys.executable, '-c', "import klepto.archives as ka; a = ka.sqltable_archive(%r, cached=False); a['p0'] = 1" % loc], env=env, cwd=tmp, check=True)
+        idler = subprocess.Popen([sys.executable, '-c', IDLER, loc], env=env, cwd=tmp, stdin=subprocess.PIPE, stdout=subprocess.PIPE, stderr=subprocess.PIPE, text=True)
+        try:
+            if idler.stdout.readline().strip() != 'ready':
+                return [], ['lingering probe: the idle process failed: ' + idler.stderr.read()[-300:]]
+            t0 = time.time()
+            w = subprocess.run([sys.executable, '-c', "import klepto.archives as ka\na = ka.sqltable_archive(%r, cached=False)\ntry:\n    a['w'] = 2; print('ok')\nexcept Exception as e: print('ERR %%s: %%s' %% (type(e).__name__, e))" % loc],
+                               env=env, cwd=tmp, stdout=subprocess.PIPE, stderr=subprocess.PIPE, text=True, timeout=120)
+            dt = time.time() - t0
+        finally:
+            try: idler.stdin.write('\n'); idler.stdin.flush()
+            except Exception: pass
+            idler.wait(timeout=30)
+        res = (w.stdout.strip().splitlines() or ['?'])[-1]
+        if res != 'ok' or dt > 4.0:
+            return [dict(prop='C14', i=0, sig=dict(backend='sql', what='bystander-locks-writers-out'), probe='lingering',
+                         msg='sqlite archive: a process that had only made operations that change nothing (pop of an absent key with a default, reads) kept its handle open; a writer in another process got %r after %.1f s' % (res, dt))], []
+        return [], []
+    except Exception:
+        import traceback
+        return [], [traceback.format_exc()[-800:]]
+    finally:
+        rm_rf(tmp)
+
+
 def explore_sql(tier):
     out = dict(runs=0, ops=0, tags=collections.Counter(), violations=[], errors=[])
     cfgs = [(2, 1, 25), (3, 2, 15)] if tier == 'quick' else [(2, 1, 60), (3, 2, 40), (2, 2, 80), (4, 1, 30)] * 3
@@ -88,10 +136,15 @@ def explore_sql(tier):
         if r['err']: out['errors'].append(r['err']); continue
         out['runs'] += 1; out['tags']['sql:runs'] += 1; out['ops'] += (nw + nr) * n
         out['violations'] += monitor(r)
+    pv, pe = lingering_probe(); out['violations'] += pv; out['errors'] += pe; out['tags']['sql:lingering-probe'] += 1
     return out
 
 
 def replay(obj):
+    if obj.get('probe') == 'lingering':
+        pv, pe = lingering_probe()
+        if pe: raise NoVerdict(pe[0])
+        return dict(violations=[dict(prop='C14', sig=v['sig'], msg=v['msg'], i=0) for v in pv], divergence=None)
     c = obj['sqlcase']
     r = one_run(c['nw'], c['nr'], c['n'], 'r')
     if r['err']: raise NoVerdict(r['err'])
